@@ -3,7 +3,7 @@
 use minijinja::value::Value;
 use minijinja::{context, Environment, State};
 
-pub const NPROGS: i64 = 41;
+pub const NPROGS: i64 = 46;
 
 pub fn rep(s: &str, n: i64) -> String {
     s.repeat(n.max(0) as usize)
@@ -173,6 +173,41 @@ pub fn program(id: i64, n: i64, m: i64, _k: i64) -> Vec<(String, String)> {
             "main",
             "{% macro mac() %}{% for i in items %}f{% endfor %}{{ probe() }}{% endmacro %}{{ {'__fmt': mac} }}{% for j in range(m) %}{{ {'__fmt': mac} }}{{ j }}{% endfor %}{{ probe() }}".into(),
         )],
+        // builtins and objects whose printed form shows interpreter state: the output must not depend on the budget
+        41 => vec![t(
+            "main",
+            "{{ debug() }}{{ probe() }}{{ debug(n, items) }}{% for i in items %}{{ loop }}{{ debug(loop) }}{{ loop.index }}{% endfor %}{{ namespace(a=n) }}{{ self }}{{ range }}{{ statedbg() }}\
+{% macro mm() %}{{ debug() }}{{ statedbg() }}{% endmacro %}{{ mm }}{{ mm() }}{% block bb %}{{ debug() }}{{ self }}{{ probe() }}{% endblock %}{% set ns = namespace(x=k) %}{{ ns }}{{ debug(ns) }}{{ probe() }}".into(),
+        )],
+        // a block that re-enters itself through self.x(); tick() counts the activations of one render
+        42 => vec![t(
+            "main",
+            "<{% block x %}[{% for i in range(m) %}w{% endfor %}{{ probe() }}{% if tick() < n %}{{ self.x() }}{% endif %}{% for i in range(m) %}v{% endfor %}]{% endblock %}>{{ probe() }}".into(),
+        )],
+        // the parent definition of x re-enters x (the most derived definition) through self.x() while super() of x is rendering it; chain depth m % 3 + 1
+        43 => {
+            let depth = m.rem_euclid(3) + 1;
+            let name = |l: i64| if l == 0 { "main".to_string() } else { format!("p{}", l) };
+            let mut v = vec![];
+            for l in 0..depth {
+                let body = if l % 2 == 0 { "c{{ super() }}{{ probe() }}" } else { "{% set s = super() %}({{ s }}){{ probe() }}" };
+                v.push((name(l), format!("{{% extends '{}' %}}{{% block x %}}{}{{% endblock %}}", name(l + 1), body)));
+            }
+            v.push((name(depth), "<{% block x %}b{% for i in items %}{{ i }}{% endfor %}{{ probe() }}{% if tick() < k + 1 %}{{ self.x() }}{% for i in items %}.{% endfor %}{% endif %}{% endblock %}>{{ probe() }}".to_string()));
+            v
+        }
+        // two blocks that call each other through self
+        44 => vec![
+            t("main", "{% extends 'base' %}{% block a %}A{{ super() }}{{ probe() }}{% endblock %}".into()),
+            t("base", "{% block a %}a{% if tick() < n %}{{ self.b() }}{% endif %}{% for i in range(m) %}.{% endfor %}{% endblock %}|{% block b %}b{{ probe() }}{% if tick() < n + k %}{{ self.a() }}{% endif %}{% for i in range(m) %},{% endfor %}{% endblock %}{{ probe() }}".into()),
+        ],
+        // re-entry under super() with the inner activation doing most of the work, plus includes and value-position super()
+        45 => vec![
+            t("main", "{% extends 'mid' %}{% block x %}{{ super()|upper }}{% include 'inc' %}{% endblock %}".into()),
+            t("mid", "{% extends 'base' %}{% block x %}m{{ super() }}{% if tick() < k %}{{ self.x() }}{% endif %}{% endblock %}".into()),
+            t("base", "<{% block x %}{% if tick() < n %}{% set inner = self.x() %}{{ inner|length }}{% endif %}{% for i in items %}{% for j in range(m) %}{{ i }}{% endfor %}{% endfor %}{{ probe() }}{% endblock %}>".into()),
+            t("inc", "({{ k }}{{ probe() }})".into()),
+        ],
         // combination: a parent block that includes and calls macros, reached through super() in value position from a macro of the child
         _ => vec![
             t("main", "{% extends 'mid' %}{% block body %}{% set s = super() %}{{ s|length }}{{ callit(deco, super()) }}{{ probe() }}{% endblock %}".into()),
@@ -215,6 +250,9 @@ fn super_chain(depth: i64, positions: impl Fn(i64) -> Vec<i64>) -> Vec<(String, 
 
 /// Host functions, filters, tests (and for program 39 a formatter) that re-enter the interpreter.
 pub fn install(env: &mut Environment<'_>, prog: i64) {
+    let ticks = std::sync::Arc::new(std::sync::atomic::AtomicI64::new(0));
+    env.add_function("tick", move || ticks.fetch_add(1, std::sync::atomic::Ordering::SeqCst));
+    env.add_function("statedbg", |state: &State| format!("{:?}", state));
     env.add_function("callit", |state: &mut State, f: Value, a: Value| f.call(state, &[a]));
     env.add_filter("via", |state: &mut State, v: Value, f: Value| f.call(state, &[v]));
     env.add_test("okby", |state: &mut State, v: Value, f: Value| -> Result<bool, minijinja::Error> {
